@@ -1,2 +1,6 @@
 #!/bin/sh
-exit 0
+# MANIFEST.setup_cmd: build the Lean model, proofs, property theorems and the compiled driver, offline.
+cd "$(dirname "$0")/lean" || exit 2
+/venv/bin/python ../harness/slots.py || exit 2
+lake build 2>&1 | tail -40
+test -x .lake/build/bin/driver
